@@ -84,6 +84,12 @@ def mc_configs(prop, tier, sd):
         cfgs.append(("ABC no flags, 1 call, <=1 veto, shard 1/64",
                      dict(base, Names="<-NamesABC", MaxCalls=1, MaxVeto=1, UseAfter=False,
                           UseFlags=False, MaxRel=2, ShardMod=64, ShardIdx=sd % 64), 900))
+    if prop == "C11":
+        # Inv_C11's auto-order half needs >= 2 Auto candidates at once, which two user
+        # states never give: three states with every Auto / Multi flag, no relations
+        cfgs.append(("ABC flags only (no relations), %d call(s), <=1 veto" % (1 if tier == "quick" else 2),
+                     dict(base, Names="<-NamesABC", MaxCalls=1 if tier == "quick" else 2, MaxVeto=1,
+                          UseAfter=False, UseFlags=True, MaxRel=0), 900))
     return cfgs
 
 
